@@ -3,6 +3,7 @@ import json
 import os
 
 from .. import dhg as M
+from ..core import unlisted_violations  # noqa: E402
 from ..core import TRUSTED_COMMON, build_and_audit, finish
 from ..sm import first_pred_failure, run_sm, targeted_search
 
@@ -216,9 +217,9 @@ def run(ctx):
                                          "started from the empty network and from a fixed two-edge prelude; this validates the model, it is not the proof")
         if xdis and not dis:
             dis, hist = [(i, len(ops) - 1, diff) for i, (ops, diff) in enumerate(xdis)], [ops for ops, _ in xdis]
-    if (dis or not ok) and not ctx.violations:
+    if (dis or not ok) and not unlisted_violations(ctx):
         targeted_search(ctx, M, pred, dis, hist, n=ctx.n(1500, 20000), derive=derive)
-        if not ctx.violations:
+        if not unlisted_violations(ctx):
             ctx.violation("model-tie", "unproven", {"broken": ctx.broken, "example": ctx.extra.get("disagreements", [])[:1]},
                           detail="; ".join(ctx.broken)[:500], kind="unproven", broken=ctx.broken)
     ctx.extra["compared_fields"] = fields
